@@ -54,6 +54,9 @@ impl Target for WorldTarget {
     fn dev_bound(&self) -> u32 {
         self.spec.cfg.d
     }
+    fn bounds(&self) -> (u32, u32) {
+        (self.spec.cfg.e, self.spec.cfg.d)
+    }
     fn digest(&self, ex: &Exec) -> u64 {
         if !self.digest {
             return 0;
@@ -381,4 +384,11 @@ pub fn c16_worlds(tier: Tier) -> Vec<WorldSpec> {
         }
     }
     v
+}
+
+/// All targets of a check in a fixed order (the worker processes index into this list).
+pub fn targets_for(id: &str, tier: Tier) -> Option<Vec<WorldTarget>> {
+    let def = check_def(id, tier)?;
+    let oracle = def.oracle;
+    Some(def.worlds.into_iter().map(|spec| WorldTarget { spec, oracle, digest: false }).collect())
 }
